@@ -58,6 +58,9 @@ instance : CommRing (CP F) where
   mul_zero a := by apply ext' <;> simp
   nsmul := nsmulRec
   zsmul := zsmulRec
+  natCast := fun k => ⟨(k : F), 0⟩
+  natCast_zero := by apply ext' <;> simp
+  natCast_succ k := by apply ext' <;> simp
 
 instance : Inv (CP F) := ⟨fun a => ⟨a.re / normSq a, -a.im / normSq a⟩⟩
 
